@@ -44,6 +44,25 @@ def evalConc (prop : String) (ins outs : List String) : Verdict :=
       else .ok "tailrace"
     | _, _, _, some d, some sy, _, _, _ => .prop "c17_tail_delete_racing_append_gap_free" s!"delete={d} sync={sy}"
     | _, _, _, _, _, _, _, _ => .bad "tailrace"
+  | some "boundary" =>
+    -- DeleteRange(1,n) up to the head racing appends n+1..n+k: the outcome of a sequential execution, and the
+    -- published Head / Height never decrease on the way
+    match kvNat? ins "n", kvNat? ins "k", kv? outs "delete", kvNat? outs "head", kvNat? outs "tail", kv? outs "regress",
+          (kv? outs "stored").bind natList? with
+    | some n, some k, some "ok", some hd, some tl, some reg, some stored =>
+      if reg != "-" then .prop "c17_head_height_monotone" s!"a reader saw {reg}" else
+      if hd == n + k && tl == n && stored == (List.range (k + 1)).map (· + n) then .ok "boundary"
+      else .prop "c17_tail_delete_racing_append_gap_free" s!"head={hd} tail={tl} stored={stored} want [{n}..{n+k}]"
+    | _, _, some d, _, _, _, _ => .prop "c17_tail_delete_racing_append_gap_free" s!"boundary: delete={d}"
+    | _, _, _, _, _, _, _ => .bad "boundary"
+  | some "torn" =>
+    match kvNat? ins "n", kvNat? ins "to", kvNat? ins "more", kv? outs "delete", kvNat? outs "head", kvNat? outs "tail",
+          (kv? outs "stored").bind natList? with
+    | some n, some to, some more, some "ok", some hd, some tl, some stored =>
+      if hd == n + more && tl == to && stored == (List.range (n + more + 1 - to)).map (· + to) then .ok "torn"
+      else .prop "c17_tail_delete_racing_append_gap_free" s!"head={hd} tail={tl} stored={stored} want [{to}..{n+more}]"
+    | _, _, _, some d, _, _, _ => .prop "c17_no_torn_read" s!"DeleteRange over appended-and-synced headers failed while a flush raced its look-up: delete={d}"
+    | _, _, _, _, _, _, _ => .bad "torn"
   | some "syncdrain" =>
     match kv? outs "sync", kvNat? outs "head", kvNat? outs "readable", kvNat? outs "want" with
     | some "ok", some hd, some rd, some want =>
